@@ -478,7 +478,7 @@ def random_history(rng, length, classes=None, p_sub=0.3, weird=0.05):
         r = rng.random()
         if r < 0.28:
             name = rng.choice(dn)
-            length_ = rng.choice([None, None, 3, 5, 5, 9, 15] + ([0, -1] if rng.random() < weird else []))
+            length_ = rng.choice([None, None, 3, 5, 5, 9, 15, 8, 4, 8, 4] + ([0, -1] if rng.random() < weird else []))   # 8 and 4 are the DTYPE_CUTOFF values of the zoo
             dtype = rng.choice([None, None, None, "short", "long"] + (["odd", ""] if rng.random() < weird else []))
             prefix = rng.choice([None] * 6 + ["p", ""])
             if rng.random() < weird:
